@@ -200,6 +200,7 @@ pub fn run_strings(case: &Value, seed: u64) -> Outcome {
         let text = conc::deb822_text(&cls, m, seed, conc::hash64(&o.key));
         if !seen.insert(text.clone()) { continue; }
         observe_text(&mut o, case, &text, &feats, true);
+        if m == 0 && cls.len() <= 4 { for t in conc::deb822_sweep(&cls) { if seen.insert(t.clone()) { observe_text(&mut o, case, &t, &feats, true); } } }
         if o.sample.is_null() && cls.len() >= 4 {
             o.sample = json!({"classes": o.key, "text": text, "model_tokens": case["t"], "model_errors": case["e"], "model_lossy": case["ls"]});
         }
@@ -277,6 +278,32 @@ pub fn check_reading(o: &mut Outcome, text: &str, expected: &[Vec<(String, Strin
     }
 }
 
+/// widen every indentation run and every blank run directly after a field's colon to `width` characters
+/// (None when the text has no such run)
+fn widen(text: &str, width: usize, variant: usize) -> Option<String> {
+    let fill = if variant == 1 { "\t" } else { " " };
+    let mut changed = false;
+    let mut out = String::new();
+    for line in text.split_inclusive('\n') {
+        let body = line.trim_start_matches(|c| c == ' ' || c == '\t');
+        if body.len() < line.len() && !body.trim_end_matches('\n').is_empty() {
+            out.push_str(&fill.repeat(width)); out.push_str(body); changed = true; continue;
+        }
+        // "Name:<blanks>value": only when the line starts a field (no leading blank, not a comment)
+        if !line.starts_with('#') {
+            if let Some(c) = line.find(':') {
+                let rest = &line[c + 1..];
+                let after = rest.trim_start_matches(|ch| ch == ' ' || ch == '\t');
+                if after.len() < rest.len() && !after.trim_end_matches('\n').is_empty() {
+                    out.push_str(&line[..c + 1]); out.push_str(&fill.repeat(width)); out.push_str(after); changed = true; continue;
+                }
+            }
+        }
+        out.push_str(line);
+    }
+    if changed { Some(out) } else { None }
+}
+
 pub fn run_docs(case: &Value, seed: u64) -> Outcome {
     let mut o = Outcome::default();
     let cls = classes_of(case);
@@ -299,6 +326,17 @@ pub fn run_docs(case: &Value, seed: u64) -> Outcome {
         } else {
             let expected = model_ll_content(&chars, &case["x"]);
             check_reading(&mut o, &text, &expected, &feats);
+            // WIDE variant: indentation and the blanks after a colon are not part of the reading, so widening them to
+            // 255 / 256 / 257 characters must not change it (nor fidelity)
+            if m == 0 {
+                for (w, width) in [255usize, 256, 257].iter().enumerate() {
+                    if let Some(wide) = widen(&text, *width, w) {
+                        let mut f2 = feats.clone(); f2.push("wide_blanks".into());
+                        observe_text(&mut o, case, &wide, &f2, false);
+                        check_reading(&mut o, &wide, &expected, &f2);
+                    }
+                }
+            }
         }
         if o.sample.is_null() {
             o.sample = json!({"classes": o.key, "text": text, "line_kinds": case["kd"], "junk": junk, "expected": case["x"]});
@@ -333,6 +371,17 @@ pub fn run_files(case: &Value, _seed: u64) -> Outcome {
     o.nontrivial = text.len() > 10;
     let feats = vec![];
     observe_text(&mut o, case, &text, &feats, true);
+    // scaled variants (no model prediction needed: fidelity, strict-iff-no-error and read = from_str are judged on the
+    // real readers alone): tens of KiB, multi-byte characters at every alignment relative to any buffer size
+    if id <= 24 {
+        let feats = vec!["scaled".to_string()];
+        for pad in 0..4usize {
+            let long_line = "é日😀a".repeat(2300 + 700 * pad);
+            let body = text.repeat(1 + 12000 / text.len().max(1));
+            let t = format!("{}: {}\n\n{}", "P".repeat(1 + pad), long_line, body);
+            observe_text(&mut o, case, &t, &feats, false);
+        }
+    }
     o.sample = json!({"source": src, "text": text.chars().take(120).collect::<String>(), "model_errors": case["e"], "model_lossy": case["ls"]});
     o
 }
